@@ -212,6 +212,7 @@ type symExec struct {
 	sums      map[*ssa.Function]*modSummary
 	phiExpand bool
 	phiStack  map[*ssa.Phi]bool
+	fnByName  map[string]*ssa.Function // function values met on the paths (incl. synthetic $bound/$thunk wrappers)
 }
 
 type collapseInfo struct {
@@ -719,6 +720,12 @@ func fieldOf(v *Term, f *types.Var) *Term {
 }
 
 func indexOf(v *Term, idx *Term) *Term {
+	for v.Op == "convert" && len(v.Args) == 1 && v.Type != nil {
+		if _, isArr := v.Type.Underlying().(*types.Array); !isArr {
+			break
+		}
+		v = v.Args[0] // [2]byte(x)[i] == x[i]
+	}
 	if v.Op == "array" {
 		if n, ok := idx.IsIntConst(); ok && int(n) < len(v.Args) && n >= 0 {
 			return v.Args[n]
@@ -765,6 +772,7 @@ func (se *symExec) val(st *state, fr *frame, v ssa.Value) *Term {
 	case *ssa.Global:
 		return &Term{Op: "global", Obj: x.Object(), Type: x.Type(), Aux: x.Name()}
 	case *ssa.Function:
+		se.noteFn(x)
 		return &Term{Op: "func", Aux: x.String(), Type: x.Type(), Obj: x.Object()}
 	case *ssa.Builtin:
 		return &Term{Op: "func", Aux: "builtin." + x.Name()}
@@ -857,6 +865,19 @@ func (se *symExec) eval(st *state, fr *frame, v ssa.Value, pristine bool) *Term 
 				}
 			}
 		}
+		// a function value compared with nil: closures and functions are never nil, nil is nil
+		if in.Op == token.EQL || in.Op == token.NEQ {
+			isNilT := func(t *Term) bool { return t.Op == "const" && t.Cval == nil && strings.HasPrefix(t.Aux, "nil") }
+			isFn := func(t *Term) bool { return t.Op == "closure" || t.Op == "func" }
+			if _, isSig := in.X.Type().Underlying().(*types.Signature); isSig {
+				switch {
+				case isNilT(x) && isNilT(y):
+					return constTerm(constant.MakeBool(in.Op == token.EQL), in.Type())
+				case isFn(x) && isNilT(y), isNilT(x) && isFn(y):
+					return constTerm(constant.MakeBool(in.Op == token.NEQ), in.Type())
+				}
+			}
+		}
 		return &Term{Op: "binop", Aux: in.Op.String(), Args: []*Term{x, y}, Type: in.Type()}
 	case *ssa.Convert:
 		x := val(in.X)
@@ -867,6 +888,10 @@ func (se *symExec) eval(st *state, fr *frame, v ssa.Value, pristine bool) *Term 
 		}
 		return &Term{Op: "convert", Args: []*Term{x}, Type: in.Type()}
 	case *ssa.ChangeType:
+		// between an aggregate and a named type with the same representation ([2]byte <-> playedNote): the same value
+		if x := val(in.X); x.Op == "array" || x.Op == "struct" {
+			return x
+		}
 		return &Term{Op: "convert", Args: []*Term{val(in.X)}, Type: in.Type()}
 	case *ssa.MakeInterface:
 		return &Term{Op: "iface", Args: []*Term{val(in.X)}, Type: in.Type()}
@@ -915,6 +940,7 @@ func (se *symExec) eval(st *state, fr *frame, v ssa.Value, pristine bool) *Term 
 			b = append(b, val(x))
 		}
 		fn := in.Fn.(*ssa.Function)
+		se.noteFn(fn)
 		return &Term{Op: "closure", Aux: fn.String(), Args: b, Type: in.Type(), Obj: fn.Object()}
 	case *ssa.Slice:
 		if x := val(in.X); x.Op == "alloc" && !pristine && in.Low == nil && in.High == nil {
@@ -1331,7 +1357,17 @@ func lenVersion(st *state, v ssa.Value) string {
 	return ""
 }
 
+func (se *symExec) noteFn(f *ssa.Function) {
+	if se.fnByName == nil {
+		se.fnByName = map[string]*ssa.Function{}
+	}
+	se.fnByName[f.String()] = f
+}
+
 func (se *symExec) findFunc(name string) *ssa.Function {
+	if f, ok := se.fnByName[name]; ok {
+		return f
+	}
 	for _, f := range se.cfg.Prog.Funcs {
 		if f.String() == name {
 			return f
